@@ -165,6 +165,56 @@ def query_model(enums):
     return info
 
 
+def overlap_enums(pid, derives=('EnumString',), feats=('parse',)):
+    """two variants sharing a byte-identical spelling, one exact and one ASCII-case-insensitive, in both orders; the
+    inputs that only the insensitive one accepts are decided pointwise"""
+    out = []
+    for j, (first_ci, second_ci, enum_ci) in enumerate([(False, True, False), (True, False, False), (None, False, True), (False, None, True),
+                                                        (False, False, False)]):
+        e = ESpec(id='%sov%d' % (pid.lower(), j), name='En%sOv%d' % (pid, j), ci=enum_ci, derives=list(derives), feats=list(feats))
+        e.variants = [VSpec(ident='Milli', ser=['m'], ci=first_ci), VSpec(ident='Mega', ser=['m', 'mega'], ci=second_ci),
+                      VSpec(ident='Kibi', ts='kib', ci=second_ci), VSpec(ident='Kilo', ser=['kib'], ci=first_ci, kind='tuple', ftypes=['u8']),
+                      VSpec(ident='Other')]
+        e.extra['shape'] = 'shared-spelling ci=%s/%s enum_ci=%s' % (first_ci, second_ci, enum_ci)
+        e.extra['no_noise'] = True
+        out.append(e)
+    return out
+
+
+OVERLAP_INPUTS = ['m', 'M', 'mega', 'MEGA', 'kib', 'KIB', 'Kib', 'kiB', 'other', 'Other', 'OTHER', '']
+
+
+def pointwise_domain(c):
+    """Enums in which two variants share a spelling are outside the GLOBAL non-overlap domain, but every input that at most
+    one candidate accepts is still decided (theorems parse_accepting_at / parse_other): those parse ops keep their verdict."""
+    ov = [e for e in c.especs if not e.extra.get('in_domain', True)]
+    if not ov:
+        return 0
+    ovids = set(e.id for e in ov)
+    lines, idx = [], []
+    for e in ov:
+        lines += e.model_lines()
+    for k, o in enumerate(c.ops):
+        if o.eid in ovids:
+            t = o.line.split(' ')
+            if len(t) >= 4 and t[2] == 'parse':
+                lines.append('op %s accepters %s' % (o.eid, t[3]))
+                idx.append(k)
+            else:
+                o.verdict = False
+    out = leanside.run_driver(lines)
+    assert len(out) == len(idx), (len(out), len(idx))
+    n = 0
+    for k, r in zip(idx, out):
+        ok = r.startswith('n=') and int(r[2:]) <= 1
+        c.ops[k].verdict = c.ops[k].verdict and ok
+        n += ok
+    for e in ov:
+        e.extra['in_domain'] = True
+        e.extra['pointwise_domain'] = True
+    return n
+
+
 def parse_inputs(rng, e: ESpec, info, tier, max_full=None):
     """(input string, class) pairs for one enum: DESIGN.md §6 C01"""
     max_full = max_full if max_full is not None else (6 if tier == 'quick' else 12)
@@ -221,7 +271,7 @@ def soup_literals(rng, stem, k):
     return pool
 
 
-def soup_variant(rng, k, stem_i, allow_empty, unit_only=False, display=False):
+def soup_variant(rng, k, stem_i, allow_empty, unit_only=False, display=False, plain_braces=False):
     stem = STEMS[stem_i % len(STEMS)]
     ident = '%s%s' % (stem, chr(65 + k % 26))
     kind = ('unit', []) if unit_only else rng.choice(KINDS)
@@ -230,6 +280,9 @@ def soup_variant(rng, k, stem_i, allow_empty, unit_only=False, display=False):
         v.fnames = FIELD_NAMES[:len(kind[1])]
         v.fdw = [None] * len(kind[1])
     pool = soup_literals(rng, ident, k)
+    if plain_braces:
+        # without a Display-like derive a `{placeholder}` in to_string / serialize is just text, and a spelling
+        pool = pool + [ident + ' is {0}', '{' + ident.lower() + '}', 'sat {sat} ' + ident]
     nser = rng.choice([0, 0, 1, 1, 2, 3])
     v.ser = [rng.choice(pool) for _ in range(nser)]
     if allow_empty and rng.random() < 0.5 and nser:
@@ -261,7 +314,8 @@ def build_soup(rng, tier, pid, derives=('EnumString',), feats=('parse',), n=None
         empty_used = False
         for k in range(nv):
             allow_empty = not empty_used and rng.random() < 0.15
-            v = soup_variant(rng, k, j * 7 + k, allow_empty, unit_only=unit_only)
+            v = soup_variant(rng, k, j * 7 + k, allow_empty, unit_only=unit_only,
+                             plain_braces=not (set(derives) & {'Display', 'ToString', 'AsRefStr', 'IntoStaticStr', 'AsStaticStr', 'VariantNames'}))
             if '' in v.ser:
                 empty_used = True
             e.variants.append(v)
